@@ -49,6 +49,7 @@ class Catalog:
     def __init__(self, infos):
         self.infos = {i["ident"]: i for i in infos}
         self.order = [i["ident"] for i in infos]
+        self.escapes = False      # constant<std::string>::display escapes quotes and backslashes (set by the check)
         self.inst = []           # (ident, cvect kinds, result kind, [arg kinds])
         for ident in self.order:
             info = self.infos[ident]
@@ -585,7 +586,7 @@ TOK_RE = re.compile(r"""
   | (?P<hole>%%\d+%%)
   | (?P<num>(\d+\.\d*|\.\d+|\d+)([eE][-+]?\d+)?)
   | (?P<id>[A-Za-z_][A-Za-z0-9_]*(::[A-Za-z_][A-Za-z0-9_]*(<[A-Za-z_]+>)?)*)
-  | (?P<str>"[^"\\\n]*")
+  | (?P<str>"([^"\\\n]|\\.)*")
   | (?P<op>&&|\|\||<=|>=|==|!=|//|\+\+|--|[-+*/%<>!?:(),.])
 """, re.X)
 
@@ -792,7 +793,10 @@ def terminal_text(case, s, par, fmt, catalog):
     if k == "I":
         return str(s["v"])
     if k == "Q":
-        return '"' + s["s"].decode("latin-1") + '"'
+        v = s["s"].decode("latin-1")
+        if getattr(catalog, "escapes", False):
+            v = v.replace(chr(92), chr(92) * 2).replace('"', chr(92) + '"')
+        return '"' + v + '"'
     if k == "V":
         return s["name"].decode("latin-1")
     if k == "T":
